@@ -193,7 +193,7 @@ func ParseAux(text []byte) (Aux, error) {
 		}
 		value = Hex(b)
 	case 'B':
-		if txt[1] != ',' {
+		if len(txt) < 2 || txt[1] != ',' {
 			return nil, fmt.Errorf("sam: invalid aux tag field: %q", text)
 		}
 		nf := bytes.Split(txt[2:], []byte{','})
